@@ -340,8 +340,156 @@ def handleTrainset (args impl : List String) : Option Reply := do
         else "na"
       pure { model := s!"relational masked_training={outBool maskedTraining}", agree := true, spec := spec }
 
+/-! ### `alignbig`: large anchor tables, generated on both sides from the request's integers
+
+`alignbig seed n a b8 half tmax`: 2 files × `n` peptides. Peptide `p` has profile time `k_p/8`
+(`bigK`, the same integer formula as the harness' `big_k`); file 0: `rt = k_p/8`, every peptide
+confident; file 1: `rt = (a·k_p + b8)/8`, confident for every `p` (`half = 0`) or every even `p`.
+Hence `max_rt₀ = tmax` (k₀ = 8·tmax is the maximum), `max_rt₁ = a·tmax + ⌈b8/8⌉`, every row has an
+entry for file 0, and the per-file regression is evaluated by the closed form of
+`n, Σx, Σy, Σxy, Σx²` (theorem `fit_closed_form`) in exact rational arithmetic: one O(n) pass
+accumulating integer numerators over the common denominators `D₀ = 8·max_rt₀`, `D₁ = 8·max_rt₁`,
+`2·D₀·D₁` (for `y`). Inputs are exactly representable (eighths below 2¹⁵), so the only difference
+to the code is f64 rounding, bounded as for `align` (`(n+2)·u·Σ|t|` propagated, all `x, y ∈ [0,1]`
+so `Σ|·| ≤ n`; ×4; plus one f32 ulp). Spec clauses: `nonfinite_param`, `max_rt_nonpositive`,
+`scale`, `aligned_ne_affine` (32 sampled PSMs, bit-exact), `nonfinite_aligned` (harness count),
+`diagonal_fit_ne_closed_form` (theorem `diag_fit_eq`: all anchors of a file on `y = x` ⇒
+`slope = Sxx/(ε+Sxx)`, `intercept = x̄(1−slope)`), `not_equivariant` (theorem `diag_fit_dev`: two such
+files send equal normalised RTs to aligned times within `ε(|x−x̄_f|/Sxx_f + |x−x̄_g|/Sxx_g)` + allowance,
+although their peptide sets differ). -/
+
+def bigK (seed tmax p : Nat) : Nat :=
+  if p == 0 then 8 * tmax else 8 + (p * 2654435761 + seed * 40503) % (8 * tmax - 8)
+
+/-- integer sums of one pass: file 0 over all p, file 1 over its confident p -/
+structure BigSums where
+  sx0 : Nat := 0
+  sy0 : Nat := 0
+  sxy0 : Nat := 0
+  sxx0 : Nat := 0
+  n1 : Nat := 0
+  sx1 : Nat := 0
+  sy1 : Nat := 0
+  sxy1 : Nat := 0
+  sxx1 : Nat := 0
+  diag : Bool := true     -- every shared anchor has x₁ = x₀ (then y = x in both files)
+  lo1 : Nat := 0          -- min / max numerator of file 1's confident x₁ (for the equivariance clause)
+  hi1 : Nat := 0
+
+def bigSums (seed n a b8 : Nat) (half : Bool) (tmax d0 d1 : Nat) : BigSums :=
+  Nat.fold n (fun p _ acc =>
+    let k := bigK seed tmax p
+    let x0 := k
+    let x1 := a * k + b8
+    let shared := !half || p % 2 == 0
+    -- y over the denominator 2·d0·d1
+    let yn := if shared then x0 * d1 + x1 * d0 else 2 * x0 * d1
+    let acc := { acc with sx0 := acc.sx0 + x0, sy0 := acc.sy0 + yn, sxy0 := acc.sxy0 + x0 * yn,
+                          sxx0 := acc.sxx0 + x0 * x0 }
+    if shared then
+      { acc with n1 := acc.n1 + 1, sx1 := acc.sx1 + x1, sy1 := acc.sy1 + yn, sxy1 := acc.sxy1 + x1 * yn,
+                 sxx1 := acc.sxx1 + x1 * x1, diag := acc.diag && x1 * d0 == x0 * d1,
+                 lo1 := if acc.n1 == 0 then x1 else min acc.lo1 x1, hi1 := max acc.hi1 x1 }
+    else acc) {}
+
+/-- closed form (`fit_closed_form`) from exact sums; also returns `x̄` and the centred `Sxx` -/
+def closedFit (ε n sx sy sxy sxx : Rat) : Rat × Rat × Rat × Rat :=
+  let c := sxx - sx * sx / n
+  let slope := (sxy - sx * sy / n) / (ε + c)
+  (slope, sy / n - slope * (sx / n), sx / n, c)
+
+/-- `|computed − exact|` bounds for slope / intercept at f64, any summation order, all data in [0,1] -/
+def bigErr (ε : Rat) (n : Nat) (slope xm ym c : Rat) : Rat × Rat :=
+  let u : Rat := dyadic 1 53
+  let nn : Rat := n
+  let eXm := (nn + 1) * u + u
+  let eDot := (nn + 2) * u * nn
+  let eT := nn * (2 * eXm + eXm * eXm) + 2 * u * nn
+  let eSs := eDot + eT + u * nn
+  let sx2 := ε + c
+  let eSx2 := 2 * eXm * nn + nn * eXm * eXm + 4 * u * nn + (nn + 2) * u * (sx2 + 1)
+  let den := sx2 - eSx2
+  if den ≤ 0 then (1, 1) else
+  let eSl := (eSs + absQ slope * eSx2) / den + u * absQ slope
+  let eIn := eXm + absQ slope * eXm + absQ xm * eSl + eSl * eXm + 2 * u * (absQ ym + absQ (slope * xm))
+  (eSl, eIn)
+
+def ratToF32 (q : Rat) : Float32 :=
+  let nb := q.num.natAbs.log2
+  let db := q.den.log2
+  let sh := (max nb db) - 900
+  let v := Float.ofNat (q.num.natAbs >>> sh) / Float.ofNat (max 1 (q.den >>> sh))
+  (if q.num < 0 then -v else v).toFloat32
+
+def handleAlignBig (args impl : List String) : Option Reply := do
+  let (seed, n, a, b8, half, tmax) ← run (do
+    let s ← nat; let n ← nat; let a ← nat; let b ← nat; let h ← bool; let t ← nat
+    pure (s, n, a, b, h, t)) args
+  if n == 0 || n > 2^20 || seed ≥ 2^31 || tmax < 2 || tmax > 4096 || a == 0 || a > 8 || b8 > 4096 then none else
+  let m0 := tmax
+  let m1 := a * tmax + (b8 + 7) / 8
+  let d0 := 8 * m0
+  let d1 := 8 * m1
+  let S := bigSums seed n a b8 half tmax d0 d1
+  let dy : Rat := (2 * d0 * d1 : Nat)
+  let q (x : Nat) (d : Rat) : Rat := (x : Rat) / d
+  let (s0, i0, xm0, c0) := closedFit epsQ n (q S.sx0 d0) (q S.sy0 dy) (q S.sxy0 (d0 * dy)) (q S.sxx0 ((d0 * d0 : Nat) : Rat))
+  let (s1, i1, xm1, c1) := closedFit epsQ S.n1 (q S.sx1 d1) (q S.sy1 dy) (q S.sxy1 (d1 * dy)) (q S.sxx1 ((d1 * d1 : Nat) : Rat))
+  let e0 := bigErr epsQ n s0 xm0 (q S.sy0 dy / n) c0
+  let e1 := bigErr epsQ S.n1 s1 xm1 (q S.sy1 dy / S.n1) c1
+  let model := s!"2 {outF32 (Float32.ofNat m0)} {outF32 (ratToF32 s0)} {outF32 (ratToF32 i0)} " ++
+    s!"{outF32 (Float32.ofNat m1)} {outF32 (ratToF32 s1)} {outF32 (ratToF32 i1)}"
+  match impl with
+  | ["panic"] => pure { model := model, agree := false, spec := "bad:panic" }
+  | _ =>
+  match run (do
+      let al ← list (do let x ← f32; let y ← f32; let z ← f32; pure (x, y, z))
+      let v ← list f32
+      let bad ← nat
+      pure (al, v, bad)) impl with
+  | none => pure { model := model, agree := false, spec := "bad:shape" }
+  | some (al, v, nonfinite) =>
+    match al, al.mapM (fun t => do let x ← ratOf32 t.1; let y ← ratOf32 t.2.1; let z ← ratOf32 t.2.2; pure (x, y, z)) with
+    | [p0, p1], some [(M0, S0, I0), (M1, S1, I1)] =>
+      if v.length != 32 then pure { model := model, agree := false, spec := "bad:shape" } else
+      let tolOf (e v : Rat) : Rat := 4 * e + absQ v * dyadic 1 23 + dyadic 1 149
+      let close (x v e : Rat) : Bool := decide (absQ (x - v) ≤ tolOf e v)
+      let agree := M0 == (m0 : Rat) && M1 == (m1 : Rat) &&
+        close S0 s0 e0.1 && close I0 i0 e0.2 && close S1 s1 e1.1 && close I1 i1 e1.2
+      -- sampled PSMs: idx_j = j(2n−1)/31 ; file = idx / n ; p = idx % n
+      let sampleOk := (List.range 32).all fun j =>
+        let idx := j * (2 * n - 1) / 31
+        let file := idx / n
+        let k := bigK seed tmax (idx % n)
+        let rt : Float32 := Float32.ofNat (if file == 0 then k else a * k + b8) / 8
+        let par := if file == 0 then p0 else p1
+        match v[j]? with
+        | some x => sameBits32 x (alignedRt rt par.1 par.2.1 par.2.2)
+        | none => false
+      let spec : String :=
+        if !specParamsFinite al then "bad:nonfinite_param"
+        else if !specMaxPos al then "bad:max_rt_nonpositive"
+        else if !(decide ((tmax : Rat) ≤ M0) && decide ((((a * 8 * tmax + b8 : Nat) : Rat) / 8) ≤ M1)) then "bad:scale"
+        else if !sampleOk then "bad:aligned_ne_affine"
+        else if nonfinite != 0 then "bad:nonfinite_aligned"
+        else if S.diag && c0 > 0 && c1 > 0 && !([q S.lo1 d1, q S.hi1 d1].all fun x =>
+            decide (absQ ((S0 * x + I0) - (S1 * x + I1))
+              ≤ epsQ * (absQ (x - xm0) / c0 + absQ (x - xm1) / c1)
+                + 4 * (absQ x * e0.1 + e0.2 + absQ x * e1.1 + e1.2)
+                + dyadic 1 22 * (absQ (S0 * x) + absQ I0 + absQ (S1 * x) + absQ I1) + dyadic 1 140))
+          then "bad:not_equivariant"
+        else if S.diag && !(close S0 (c0 / (epsQ + c0)) e0.1 && close I0 (xm0 * (1 - c0 / (epsQ + c0))) e0.2
+                          && close S1 (c1 / (epsQ + c1)) e1.1 && close I1 (xm1 * (1 - c1 / (epsQ + c1))) e1.2)
+          then "bad:diagonal_fit_ne_closed_form"
+        else "ok"
+      pure { model := model, agree := agree, spec := spec }
+    | _, _ =>
+      pure { model := model, agree := false,
+             spec := if al.length != 2 then "bad:shape" else "bad:nonfinite_param" }
+
 def handle (op : String) (args impl : List String) : Option Reply :=
   match op with
+  | "alignbig" => handleAlignBig args impl
   | "trainset" => handleTrainset args impl
   | "rtpredictq" => handlePredict false args impl true
   | "imspredictq" => handlePredict true args impl true
